@@ -95,7 +95,7 @@ func cmdCheck(args []string) int {
 		fmt.Fprintln(os.Stderr, "bad spec:", err)
 		return 2
 	}
-	outDir := filepath.Join(verifDir, "out")
+	outDir := envOr("VERIF_OUT", filepath.Join(verifDir, "out"))
 	replayDir := filepath.Join(outDir, "replay", id)
 	os.RemoveAll(replayDir)
 	os.MkdirAll(replayDir, 0o755)
@@ -294,7 +294,8 @@ func writeJSON(path string, v any) {
 }
 
 func writeEvidence(verifDir, id, tier string, seed int, results []*FuncResult, all []*Obligation, covers []*Obligation, wall float64, violations int, spec *PropSpec, stats map[string]any, eng *Engine) {
-	os.MkdirAll(filepath.Join(verifDir, "evidence"), 0o755)
+	evDir := envOr("VERIF_EVIDENCE_DIR", filepath.Join(verifDir, "evidence"))
+	os.MkdirAll(evDir, 0o755)
 	var funcs []map[string]any
 	assum := map[string]bool{}
 	inl := map[string]bool{}
@@ -383,7 +384,7 @@ func writeEvidence(verifDir, id, tier string, seed int, results []*FuncResult, a
 		cov[k] = v
 	}
 	ev := map[string]any{"property_id": id, "tier": tier, "seed": seed, "level": "proof", "coverage": cov, "assumptions": assumptions, "wall_s": wall, "violations": violations}
-	writeJSON(filepath.Join(verifDir, "evidence", id+".json"), ev)
+	writeJSON(filepath.Join(evDir, id+".json"), ev)
 }
 
 type ReplayResult struct {
